@@ -1,6 +1,6 @@
 (* C15 -- Every module's public type label matches its ISO region. *)
 From Coq Require Import NArith List Bool Arith Lia.
-From FQ Require Import Lib.Mat Model.Types Model.Hardcode Model.Default Model.Qr Spec.Iso Spec.Oracles
+From FQ Require Import Proofs.PropLemmas Lib.Mat Model.Types Model.Hardcode Model.Default Model.Qr Spec.Iso Spec.Oracles
   Proofs.Tables Proofs.Geometry Proofs.GeomSafe Proofs.Build Proofs.BuildMatrix Proofs.Regions.
 Import ListNotations.
 
@@ -9,10 +9,7 @@ Import ListNotations.
 Theorem C15_labels_are_regions : forall input o q, options_wf o -> build input o = Ok q ->
   forall r c, r < q_size q -> c < q_size q ->
     fst (qget (q_mat q) r c) = region_type (iso_region (q_version q) r c).
-Proof.
-  intros input o q W H r c Hr Hc. destruct (build_ok_matrix input o q W H) as (Hv & Hk & Hs & _ & _ & _ & _ & Hm).
-  rewrite Hm. rewrite Hs in Hr, Hc. now apply final_label.
-Qed.
+Proof. exact labels_are_regions_c15. Qed.
 Print Assumptions C15_labels_are_regions.
 
 (* the number of encoding-region modules is 8 x total codewords + remainder bits, and those derived from the geometry
@@ -20,8 +17,5 @@ Print Assumptions C15_labels_are_regions.
 Theorem C15_data_count : forall v, v < 40 ->
   length (iso_data_coords v) = 8 * iso_total_codewords v + iso_remainder_bits v /\
   N.of_nat (iso_total_codewords v) = max_bytes v /\ N.of_nat (iso_remainder_bits v) = missing_bits v.
-Proof.
-  intros v Hv. split; [|now apply counts_from_geometry].
-  unfold iso_total_codewords, iso_remainder_bits. apply Nat.div_mod. lia.
-Qed.
+Proof. exact data_count_c15. Qed.
 Print Assumptions C15_data_count.
